@@ -240,7 +240,8 @@ CLAIMED.update(
             "after process.start() on every path and never escapes (so a dead worker yields EOF); every path of _restart to _start_worker passes the adjustment by the crashed worker's "
             "elapsed time and the `maximum_search_time <= 0` abort, in that order; the adjustment, evaluated by the checker's own evaluator over a boundary partition of (budget, elapsed) "
             "including sub-second elapsed times, yields an int in [0, old budget) for every positive budget and leaves non-positive budgets untouched; get_result turns any receive "
-            "failure into the restart path, recurses only after a successful restart and otherwise returns ERROR; the master only builds ERROR/None results, the worker reports "
+            "failure into the restart path, recurses only after a successful restart and otherwise returns ERROR; recv() on the result pipe is reached only after poll() reported data, "
+            "and the wait is a poll(timeout) loop that ends when the worker process is no longer alive (EOF can be withheld by a process the worker forked); the master only builds ERROR/None results, the worker reports "
             "run_pynguin()'s own code on the normal path only, the client has an arm for every WorkerReturnCode and no literal success. Wall-clock bounds are not decided.",
             "Trusts the CFG builder and the evaluator sa/engine/peval.py (arithmetic, max/min/int/round/floor, comparisons, if/assign/return).",
             "DESIGN.md §3 C33",
